@@ -221,10 +221,10 @@ Theorem template_guarded_total : forall fs o,
 Proof. exact template_guarded_total_p. Qed.
 Print Assumptions template_guarded_total.
 
-(* transfers between datastore kinds (Model/DatastoreCheck.v, compared on every run): a refused pair changes nothing *)
+(* transfers between datastore kinds (Model/DatastoreCheck.v, compared on every run): an incompatible pair never
+   changes the target, whatever the two states are *)
 Theorem xfer_refused_noop : forall tbl cd cs dst src id,
-  xfer_refused (c_kind cd) (c_kind cs) (has_mem cobj cbytes src id) = true ->
-  xfer tbl cd cs dst src id = (dst, Refused TypeErr).
+  xfer_compat (c_kind cd) (c_kind cs) = false -> fst (xfer tbl cd cs dst src id) = dst.
 Proof. intros tbl cd cs dst src id H. unfold xfer. rewrite H. reflexivity. Qed.
 Print Assumptions xfer_refused_noop.
 
